@@ -105,6 +105,15 @@ CLAIMS.update({
             "contract-based deductive verification (pyvc+z3) of _update_view; bounded contract checking of the view as a whole", BASE_TRUST),
 })
 
+CLAIMS.update({
+    "C12": ("other", "Rely/guarantee verification at file-system-call granularity of the actor functions Project.__init__, _mkdir_p and Job.init (executed down through Job.statepoint, "
+            "_StatePointDict.load/save and the dependency's read/write contracts): under interference by any number of other actors of the script set before every file-system call, no "
+            "exception escapes, the job directory holds a valid state point on return, and every own effect is a step the others may rely on (directories only appear, state point files are "
+            "only ever written atomically with a content valid for that id). This covers every interleaving, not a sample. Document-write visibility and torn-read freedom rest on the "
+            "dependency's atomic-replace contract (assumed; see C10); listing under interference and the whole-run lemma are not mechanised: level 'other'.",
+            "DESIGN 4/C12", "contract-based deductive verification in rely/guarantee mode (pyvc+z3): interference before every external, guarantee obligation per effect", FS_NOTE),
+})
+
 NOT_YET = "not yet under contract in this round of the build (see DESIGN.md section 8 for the order); no check is registered, nothing is claimed"
 
 NA = {}
